@@ -21,7 +21,7 @@ def structured_blocks(rng, npr, x, dtype):
     special-case): symmetric, complex symmetric (NOT hermitian), hermitian, diagonal, diagonal
     of phases, triangular, orthogonal / unitary, constant. -> name of the structure or None"""
     cplx = np.dtype(dtype).kind == "c"
-    st = rng.choice(["symmetric", "symmetric", "hermitian", "diagonal", "phases", "triangular", "unitary", "constant", "antisymmetric", "integer-diagonal", "integer-diagonal", "same-block-in-every-sector"])
+    st = rng.choice(["symmetric", "symmetric", "hermitian", "diagonal", "phases", "triangular", "unitary", "constant", "antisymmetric", "integer-diagonal", "integer-diagonal", "same-block-in-every-sector", "near-tie-diagonal"])
     if st == "same-block-in-every-sector":
         # bit-identical singular values in different charge sectors
         shapes = {}
@@ -49,6 +49,11 @@ def structured_blocks(rng, npr, x, dtype):
         elif st == "integer-diagonal":
             # exactly repeated singular values (4, 4, 3, 2, 1, 1, ...)
             v = np.diag(npr.choice([1.0, 1.0, 2.0, 3.0, 4.0, 4.0], size=n)).astype(b.dtype)
+        elif st == "near-tie-diagonal":
+            # distinct values a few 1e-13 apart (relative): no tie, but closer than any
+            # "robustness" tolerance should be allowed to blur
+            base_ = npr.choice([0.6, 1.0, 2.5, 4.0], size=n)
+            v = np.diag(base_ * (1.0 - 3e-13 * npr.integers(0, 4, size=n))).astype(b.dtype)
         elif st == "diagonal":
             v = np.diag(np.diag(b))
         elif st == "phases":
